@@ -19,15 +19,17 @@ QSet == { AND(<<A, A, B>>), AND(<<B>>), B, AND(<<OR(<<A, C>>), OR(<<B, C>>)>>), 
           OR(<<A, B>>), AND(<<A, B>>), NOTe(OR(<<A, B>>)), OR(<<NOTe(A), B>>), AND(<<A, OR(<<B, C>>)>>), OR(<<AND(<<A, B>>), C>>),
           EQ(3, 1), AND(<<A, EQ(3, 1)>>) }
 
+\* group-by lists: post-processing of the (possibly cached / preloaded) result bitmap must not alter it either
+GBList == <<<<>>, <<1, 2>>, <<2, 1>>, <<2>>, <<1, 1>>>>
 VARIABLES c, resp, nq
 vars == <<c, resp, nq>>
-Init == c = NewLRU(Cap, Ovh) /\ resp = [e |-> A, res |-> ExecSpec(Rows, A, <<>>)] /\ nq = 0
+Init == c = NewLRU(Cap, Ovh) /\ resp = [e |-> A, gb |-> <<>>, res |-> ExecSpec(Rows, A, <<>>)] /\ nq = 0
 Next == /\ nq < MaxQ
-        /\ \E e \in QSet : LET x == ExecC(F, e, <<>>, c) IN
-             c' = x.c /\ resp' = [e |-> e, res |-> x.res] /\ nq' = nq + 1
+        /\ \E e \in QSet, g \in DOMAIN GBList : LET x == ExecC(F, e, GBList[g], c) IN
+             c' = x.c /\ resp' = [e |-> e, gb |-> GBList[g], res |-> x.res] /\ nq' = nq + 1
 Spec == Init /\ [][Next]_vars
 
-Transparent == resp.res = ExecSpec(Rows, resp.e, <<>>)
+Transparent == resp.res = ExecSpec(Rows, resp.e, resp.gb)
 CacheWF == LruWellFormed(c) /\ SizeBound(c)
 \* every cached bitmap is the meaning of every expression that has its key
 CachedAreMeanings == \A k \in Resident(c) : \A e \in QSet : Key(e) = k => c.ent[k].bm = SatSet(Rows, e)
